@@ -28,6 +28,20 @@ DEEP = {
 }
 
 
+_BIG = {}
+
+
+def _big(off, shape=(240, 260)):
+    """A large generic array (smaller side >= 200), built once per (offset, shape): size-dependent code paths."""
+    key = (int(off), tuple(shape))
+    if key not in _BIG:
+        n = int(np.prod(shape))
+        base = V.generic((997,), off + 11)
+        idx = (np.arange(n) * 7 + (np.arange(n) // 997) * 13) % 997
+        _BIG[key] = (base[idx] * (1.0 + (np.arange(n) % 11) / 7.0)).reshape(shape)
+    return _BIG[key].copy()
+
+
 def _t3(off, signed=True):
     return V.generic((3, 4, 2), off, signed=signed)
 
@@ -172,6 +186,13 @@ def seeded_entries():
         lambda off: (lambda rs, M=V.generic((6, 5), off + 6): S.randomized_range_finder(M, 3, n_iter=1, random_state=rs)))
     add("randomized_svd", "default", 0.3,
         lambda off: (lambda rs, M=V.generic((6, 5), off + 6): S.randomized_svd(M, 2, n_oversamples=1, random_state=rs)))
+    # data of another kind (complex) and of another size class (smaller side >= 200: above any plausible "large matrix" switch)
+    add("randomized_svd", "complex-input", 0.3,
+        lambda off: (lambda rs, M=V.gauss_ints((6, 5), off + 6): S.randomized_svd(M, 2, n_oversamples=1, random_state=rs)))
+    add("svd_interface", "method-randomized_svd-complex-input", 0.4,
+        lambda off: (lambda rs, M=V.gauss_ints((5, 7), off + 4): S.svd_interface(M, method="randomized_svd", n_eigenvecs=2, random_state=rs)))
+    add("randomized_svd", "large-matrix", 6.0,
+        lambda off: (lambda rs, M=_big(off): S.randomized_svd(M, 3, random_state=rs)))
     add("randomized_svd", "transposed-branch", 0.3,
         lambda off: (lambda rs, M=V.generic((4, 7), off + 7): S.randomized_svd(M, 2, n_oversamples=1, random_state=rs)))
     add("svd_interface", "method-randomized_svd", 0.4,
@@ -278,6 +299,12 @@ def seedless_families():
         ("svd_interface[symeig_svd]", lambda off: (lambda M=V.generic((6, 5), off + 6): S.svd_interface(M, method="symeig_svd", n_eigenvecs=3))),
         ("truncated_svd", lambda off: (lambda M=V.generic((4, 7), off + 7): S.truncated_svd(M, 2))),
         ("svd_interface[non_negative]", lambda off: (lambda M=V.generic((6, 5), off + 6, signed=False): S.svd_interface(M, n_eigenvecs=2, non_negative=True))),
+    ])
+    fam("svd-functions-large-matrix", 8.0, [
+        ("truncated_svd[240x260,k=3]", lambda off: (lambda M=_big(off): S.truncated_svd(M, 3))),
+        ("svd_interface[truncated_svd,240x260,k=2]", lambda off: (lambda M=_big(off): S.svd_interface(M, method="truncated_svd", n_eigenvecs=2))),
+        ("symeig_svd[240x260,k=3]", lambda off: (lambda M=_big(off): S.symeig_svd(M, 3))),
+        ("parafac[init=svd,(220,12,20)]", lambda off: (lambda T=_big(off, (220, 12, 20)): D.parafac(T, 2, init="svd", n_iter_max=1, tol=0))),
     ])
     fam("tensor-algebra-A", 0.2, [
         ("khatri_rao", lambda off: (lambda M=_mats(off): A.khatri_rao(M))),
